@@ -12,10 +12,10 @@ open Leaf
 def cmpSign (aw a : Nat) : Nat := Leaf.bit 1 a (aw - 1)
 
 /-- `Equal(a, b, r)` relational.py:123-175; `xor` has the width of `a`.  width 1: Xor2 + Not; else Xor2, BitsLSBF, Nor
-    (whose `Mid` has the width of the first bit wire: 1) -/
+    (whose `Mid` has the width of `r`) -/
 def equal (aw bw rw a b : Nat) : Nat :=
   let x := xor2 aw bw aw a b
-  if aw = 1 then Leaf.not1 rw x else norN 1 rw (bitsLSBF aw x)
+  if aw = 1 then Leaf.not1 rw x else norN rw (bitsLSBF aw x)
 def equalLegal (aw : Nat) : Bool := decide (1 ≤ aw)
 
 /-- `AnyEqual(ins, r)` relational.py:11-46: `Equal` for every ordered pair `i ≠ j` (1-bit wires), then `Or`.
